@@ -148,9 +148,23 @@ def run(chk, repo):
     if 'intron_start_range' not in pars or 'intron_end_range' not in pars or 'feature' not in pars:
         raise AnalysisError('anchor=find_intron_index: tolerance range parameters not found')
 
+    own_of = {}
+    for st_ in ast.walk(nfi):
+        if isinstance(st_, (ast.If, ast.While)):
+            for x_ in ast.walk(st_.test):
+                own_of.setdefault(id(x_), st_)
+
     def rng_cmp(e, rng):
-        return [c for c in ast.walk(e) if isinstance(c, ast.Compare) and len(c.ops) == 1 and isinstance(c.ops[0], (ast.In, ast.NotIn))
-                and unparse(c.comparators[0]) == rng]
+        # the tolerance window of parameter `rng`: FeatureLocation(start=rng[0], end=rng[1] + 1), under whatever name it is kept
+        want_w = f"FeatureLocation(start={rng}[0], end={rng}[1] + 1)"
+        out = []
+        for c in ast.walk(e):
+            if isinstance(c, ast.Compare) and len(c.ops) == 1 and isinstance(c.ops[0], (ast.In, ast.NotIn)):
+                ctx = own_of.get(id(c))
+                w = unparse(_s17.expand_names(nfi, ctx, c.comparators[0], chains=ch17, allow_calls=('FeatureLocation',))) if ctx is not None else unparse(c.comparators[0])
+                if w == want_w:
+                    out.append(c)
+        return out
     offs = {}
     for rng, k in (('intron_start_range', 'start_offset'), ('intron_end_range', 'end_offset')):
         for tst, own, fx in _s17.facts_at_tests(nfi, lambda e, rng=rng: bool(rng_cmp(e, rng))):
